@@ -128,7 +128,7 @@ class FsspecStorage(Storage, ABC):
         fs = self.fs_constructor()
         return [
             str(Path(entry).relative_to(self._storage_path))
-            for entry in fs.ls(str(self._storage_path))
+            for entry in fs.ls(str(self._storage_path), detail=False)
         ]
 
     def exists(self, key: str) -> bool:
